@@ -87,3 +87,12 @@ Theorem C09_mad_binary64_never_nan : forall p s xs M, mad_new FOps p = Ok s -> (
   (1 <= M)%R -> (M <= bpow radix2 400)%R -> Forall (okin M) xs -> (INR (length xs) + 2 <= bpow radix2 40)%R ->
   Forall (fun o => finF o /\ (0 <= FR o)%R) (Wiring.mad_outs FOps s xs).
 Proof. exact mad_float_never_nan. Qed.
+(* BollingerBands on binary64: every band finite and lower <= average <= upper EXACTLY on the floats, for every period < 2^53,
+   every finite multiplier in [0, 2^400] and every stream of at most 2^40 - 2 finite inputs of magnitude at most M <= 2^400 *)
+From TA Require Import Proofs.FloatBb.
+Theorem C09_bb_binary64_ordered : forall p mu b xs M, bb_new FOps p mu = Ok b -> (p < 9007199254740992)%N ->
+  finF mu -> (0 <= FR mu <= bpow radix2 400)%R ->
+  (1 <= M)%R -> (M <= bpow radix2 400)%R -> Forall (okin M) xs -> (INR (length xs) + 2 <= bpow radix2 40)%R ->
+  Forall (fun o => exists a up lo, o = [a; up; lo] /\ finF a /\ finF up /\ finF lo /\ (FR lo <= FR a <= FR up)%R)
+         (Wiring.bb_outs FOps b xs).
+Proof. exact bb_float_ordered. Qed.
